@@ -788,3 +788,55 @@ pub open spec fn row_ok(cd: &CelsData<RawPixels>, src: Seq<Option<RawCel<RawPixe
     forall|l: int| 0 <= l < upto ==> cell_ok(cd, src[l], #[trigger] dst[l], l, layers, tilesets)
 }
 // @end
+
+// @section hashmap_shim
+/// shim for std::collections::HashMap: abstract view as a map (ASSUMED contracts of with_capacity / capacity / insert / get);
+/// into_iter yields every (key, value) pair exactly once in an unspecified order (TRUSTED iterator shim)
+#[verifier::external_body]
+#[verifier::reject_recursive_types(K)]
+#[verifier::reject_recursive_types(V)]
+pub struct HashMap<K, V> { _p: core::marker::PhantomData<(K, V)> }
+#[verifier::external_body]
+#[verifier::reject_recursive_types(K)]
+#[verifier::reject_recursive_types(V)]
+pub struct MapIntoIter<K, V> { _p: core::marker::PhantomData<(K, V)> }
+pub uninterp spec fn map_iter_rem<K, V>(it: MapIntoIter<K, V>) -> Seq<(K, V)>;
+impl<K, V> Iterator for MapIntoIter<K, V> {
+    type Item = (K, V);
+    #[verifier::external_body]
+    fn next(&mut self) -> Option<(K, V)> { unimplemented!() }
+}
+impl<K, V> vstd::std_specs::iter::IteratorSpecImpl for MapIntoIter<K, V> {
+    open spec fn obeys_prophetic_iter_laws(&self) -> bool { true }
+    open spec fn remaining(&self) -> Seq<(K, V)> { map_iter_rem(*self) }
+    open spec fn will_return_none(&self) -> bool { true }
+    open spec fn decrease(&self) -> Option<nat> { Some(map_iter_rem(*self).len()) }
+    open spec fn peek(&self, i: int) -> Option<(K, V)> {
+        if 0 <= i < map_iter_rem(*self).len() { Some(map_iter_rem(*self)[i]) } else { None }
+    }
+}
+/// `pairs` enumerates the map: every pair is an entry, every key occurs, no key occurs twice
+pub open spec fn enumerates<K, V>(pairs: Seq<(K, V)>, m: Map<K, V>) -> bool {
+    &&& forall|i: int| 0 <= i < pairs.len() ==> m.contains_key((#[trigger] pairs[i]).0) && m[pairs[i].0] == pairs[i].1
+    &&& forall|k: K| m.contains_key(k) ==> exists|i: int| 0 <= i < pairs.len() && (#[trigger] pairs[i]).0 == k
+    &&& forall|i: int, j: int| 0 <= i < j < pairs.len() ==> (#[trigger] pairs[i]).0 != (#[trigger] pairs[j]).0
+}
+impl<K, V> HashMap<K, V> {
+    pub uninterp spec fn view(&self) -> Map<K, V>;
+    #[verifier::external_body]
+    pub fn with_capacity(n: usize) -> (r: Self)
+        ensures r@ == Map::<K, V>::empty(),
+    { unimplemented!() }
+    #[verifier::external_body]
+    pub fn capacity(&self) -> (r: usize)
+    { unimplemented!() }
+    #[verifier::external_body]
+    pub fn insert(&mut self, k: K, v: V) -> (r: Option<V>)
+        ensures final(self)@ == old(self)@.insert(k, v),
+    { unimplemented!() }
+    #[verifier::external_body]
+    pub fn into_iter(self) -> (r: MapIntoIter<K, V>)
+        ensures enumerates(map_iter_rem(r), self@),
+    { unimplemented!() }
+}
+// @end
